@@ -94,6 +94,180 @@ def model_differs(r, specs, m, i):
             "impl": None if k is None else {"exc": i["steps"][k]["exc"], "lines": i["steps"][k]["out"].split("\n")[-6:]}}
 
 
+
+# ---------------------------------------------------------------------------------------------------------------------
+# Every way of making a writer (constructor, from_fd, from_path plain and .gz) with every way of making its header
+# (from_lines with the pragmas in either order, from_defaults / from_reader with contigs= or fasta_index=, a reader's
+# header): the file must obey the pragmas it carries itself.
+WRITER_FACTORIES = ["ctor", "from_fd", "path", "path-gz"]
+
+
+def spec_line(sp, typed):
+    t, nn, c, s, d = sp
+    if typed:
+        return str(SC.typed_record(None, t, nn or None, c, s, s + d))
+    return "\t".join(["G", c, str(s), str(s + d), t, nn])
+
+
+def write_via(factory, header, lines, typed, sort, method, tmp, tag, positional=True):
+    """One writer session through `factory`; {"init_exc"} or {"excs": [...], "text": the file after close, "path"}."""
+    import gzip
+    import os
+    from maflib.writer import MafWriter
+    mode = impl.MODES["Strict" if typed else "Silent"]
+    buf, path = None, None
+    with impl.LogCapture():
+        try:
+            if factory == "ctor":
+                buf = impl.RecordingHandle()
+                w = MafWriter(buf, header, mode, not sort) if positional else MafWriter(handle=buf, header=header, validation_stringency=mode, assume_sorted=not sort)
+            elif factory == "from_fd":
+                buf = impl.RecordingHandle()
+                w = MafWriter.from_fd(buf, header, validation_stringency=mode, assume_sorted=not sort)
+            else:
+                path = os.path.join(tmp, "w_%d.maf%s" % (tag, ".gz" if factory == "path-gz" else ""))
+                w = MafWriter.from_path(path, header, validation_stringency=mode, assume_sorted=not sort) if positional else \
+                    MafWriter.from_path(path=path, header=header, validation_stringency=mode, assume_sorted=not sort)
+        except Exception as e:  # noqa
+            return {"init_exc": exc_name(e)}
+        excs = []
+        for ln in lines + [None]:
+            try:
+                if ln is None:
+                    w.close()
+                else:
+                    rec = impl.mk_record({"parse": {"line": ln, "scheme": "gdc-1.0.0"} if typed else {"line": ln, "names": UNTYPED}})
+                    if method == "write":
+                        w.write(rec)
+                    else:
+                        w += rec
+                excs.append(None)
+            except Exception as e:  # noqa
+                excs.append(exc_name(e))
+        if path is None:
+            text = buf.text()
+        else:
+            try:
+                with (gzip.open(path, "rt") if factory == "path-gz" else open(path)) as h:
+                    text = h.read()
+            except Exception as e:  # noqa
+                return {"excs": excs, "text": None, "path": path, "read_back": exc_name(e)}
+    return {"excs": excs, "text": text, "path": path}
+
+
+def own_reader(text, path, mode):
+    """The library's reader over the produced file (through reader_from when it is a file on disk): (records, error)."""
+    if path is None:
+        rd = impl.run({"op": "reader.run", "lines": text.split("\n")[:-1] if text.endswith("\n") else text.split("\n"), "mode": mode})
+        return len(rd.get("records", [])), rd.get("init_exc") or rd.get("iter_exc")
+    from maflib.reader import MafReader
+    n = 0
+    with impl.LogCapture():
+        try:
+            reader = MafReader.reader_from(path, validation_stringency=impl.MODES[mode])
+            try:
+                for _rec in reader:
+                    n += 1
+            finally:
+                reader.close()
+        except Exception as e:  # noqa
+            return n, exc_name(e)
+    return n, None
+
+
+def eval_write_route(hroute, factory, method, specs, order, contigs, typed, sort, tmp, tag=1, positional=True):
+    """One writer session with the header built through `hroute` and the writer through `factory`, and the oracle's
+    verdict (shared by run and replay_case).  The order and contig list the body is judged by are the ones declared by
+    the pragma lines of the produced file itself.  Returns (result, where, failures, body or None, model request or None)."""
+    where = {"case": "writer-route", "header_route": hroute, "factory": factory, "method": method, "records": [list(sp) for sp in specs],
+             "sorting": sort, "typed": typed, "order": order, "contigs": contigs, "positional_args": positional}
+    fails = []
+    try:
+        header = SC.header_via(hroute, order, contigs, tmp, typed)
+        hdr_lines = str(header).split("\n")
+    except Exception as e:  # noqa
+        fails.append(dict(where, what="building the header through route %r failed with %s" % (hroute, exc_name(e)), kind="route-failed"))
+        return None, where, fails, None, None
+    wrote = [spec_line(sp, typed) for sp in specs]
+    res = write_via(factory, header, wrote, typed, sort, method, tmp, tag, positional)
+    where["header"] = hdr_lines
+    if "init_exc" in res or any(res["excs"]) or res["text"] is None:
+        fails.append(dict(where, what="writing well-formed records failed", kind="write-failed",
+                          got=res.get("init_exc") or res.get("read_back") or res["excs"]))
+        return res, where, fails, None, None
+    mode = "Strict" if typed else "Silent"
+    req = dict(make_request(hdr_lines, specs, typed, sort))
+    hdr, col, body = body_lines(res["text"])
+    if hdr != hdr_lines or (col is None and (typed or specs)):
+        fails.append(dict(where, what="the file does not start with the header and the column line", kind="header", got=hdr))
+        return res, where, fails, None, req
+    if sorted(body) != sorted(wrote):
+        fails.append(dict(where, what="the file does not hold every record exactly once", kind="not-permutation", wrote=len(wrote), found=len(body)))
+        return res, where, fails, None, req
+    if not sort:
+        if body != wrote:
+            fails.append(dict(where, what="with sorting off the records are not in the order they were written", kind="order-changed"))
+    else:
+        forder, fcontigs = header_decl(hdr)          # what the file says about itself
+        names = (col or "").split("\t")
+        ix = [names.index(n) for n in ("Tumor_Sample_Barcode", "Matched_Norm_Sample_Barcode", "Chromosome", "Start_Position", "End_Position")] if body else []
+        locs = []
+        for b in body:
+            f = b.split("\t")
+            locs.append({"tumor": f[ix[0]], "normal": (f[ix[1]] or None) if typed else f[ix[1]], "chr": f[ix[2]], "start": f[ix[3]], "stop": f[ix[4]]})
+        if forder in ("Coordinate", "BarcodesAndCoordinate"):
+            bad = [j for j in range(len(locs) - 1) if expected_cmp(locs[j], locs[j + 1], forder, fcontigs) > 0]
+            if bad:
+                fails.append(dict(where, what="the file is not in the order declared by its own sort.order / contigs pragmas", kind="not-sorted",
+                                  at=bad[0], declares=[forder, fcontigs], body=[[l["tumor"], l["normal"], l["chr"], l["start"], l["stop"]] for l in locs][:8]))
+        n, err = own_reader(res["text"], res["path"], mode)
+        if err or n != len(wrote):
+            fails.append(dict(where, what="the library's reader does not iterate the produced file to the end", kind="own-reader-rejects", got=err or n))
+    return res, where, fails, body, req
+
+
+def route_cases(ctx, out):
+    import tempfile
+    rng = ctx.rng("c10-routes")
+    contig_sets = [None, ["chr1", "chr10", "chr2", "chrX"], ["chr1", "chr2", "chr10", "chrX"], ["chrX", "chr10", "chr2", "chr1"], ["chr2", "chr10", "chr1", "chrX"]]
+    reqs, meta = [], []
+    with tempfile.TemporaryDirectory() as tmp:
+        for tag in range(ctx.scale(90, 800)):
+            typed = rng.random() < 0.4
+            order = rng.choice(["Coordinate", "BarcodesAndCoordinate"])
+            contigs = rng.choice(contig_sets) or []
+            hroute = rng.choice(SC.routes_for(contigs, SC.HEADER_ROUTES, skip_pending=False))
+            factory = rng.choice(WRITER_FACTORIES)
+            method = rng.choice(["+=", "+=", "write"])
+            sort = rng.random() < 0.85
+            n = rng.choice([0, 1, 2, 3, 3, 4, 5])
+            chroms = contigs or ["chr1", "chr2", "chr10", "chrX"]
+            specs = [(rng.choice(["T1", "T2"]), rng.choice(["N1", "N2", ""]), rng.choice(chroms), rng.choice([5, 9, 10, 100]), rng.choice([0, 1, 7]))
+                     for _ in range(n)]
+            if n >= 2 and rng.random() < 0.3:
+                specs[rng.randrange(n)] = specs[rng.randrange(n)]       # equal keys
+            out.evaluations += 1
+            res, where, fails, body, req = eval_write_route(hroute, factory, method, specs, order, contigs, typed, sort, tmp, tag, rng.random() < 0.5)
+            out.failures += fails
+            if req is not None and res is not None and res.get("text") is not None:
+                reqs.append(req)
+                meta.append((res["text"], where))
+            if body is None:
+                continue
+            out.distribution["factory:" + factory] += 1
+            out.distribution["header:" + hroute] += 1
+            if sort and len(specs) >= 2:
+                out.nontrivial.add(repr((where["header"], specs, factory, hroute)))
+    for r, m, (text, where) in zip(reqs, ctx.driver.run(reqs), meta):
+        if has_unmodelled(m):
+            out.unmodelled += 1
+        elif not m.get("steps") or m["steps"][-1]["out"] != text or any(st["exc"] for st in m["steps"]):
+            out.disagreements.append({"op": "writer.run", "header": r["header_lines"], "assume_sorted": r["assume_sorted"], "records": where["records"],
+                                      "factory": where["factory"], "header_route": where["header_route"],
+                                      "model": None if not m.get("steps") else {"exc": [st["exc"] for st in m["steps"]], "lines": m["steps"][-1]["out"].split("\n")[-6:]},
+                                      "impl": {"lines": text.split("\n")[-6:]}})
+
+
 def run(ctx):
     out = Outcome()
     out.rule = ("headers with both sortable orders, contig list absent / lexical / karyotypic (chr1,chr2,...,chr10) / reversed, typed (gdc-1.0.0) and scheme-less records; "
@@ -138,6 +312,10 @@ def run(ctx):
             out.nontrivial.add(repr((r["header_lines"], specs)))
         if len(out.samples) < 3 and sort and len(specs) >= 3:
             out.sample({"header": r["header_lines"], "records_in": specs, "body_out": [b.split("\t")[:6] for b in body][:5] if not typed else "typed"})
+    out.rule += ("; writers made by MafWriter(...), from_fd, from_path on a plain and on a .gz path, records handed over with += and write(), headers made by from_lines "
+                 "(pragmas in either order), from_defaults and from_reader (contigs= / fasta_index= / a bound order), and taken from a reader: the body is judged by the "
+                 "pragmas of the produced file, which is re-read with reader_from when it is on disk")
+    route_cases(ctx, out)
     return out
 
 
@@ -219,6 +397,47 @@ def replay_case(ctx, failure):
         print("implementation: %d body lines, %s" % (len(got), "in non-decreasing start order" if k is None else
                                                      "first descent at body line %d: starts %s" % (k + 1, got[max(0, k - 1):k + 3])))
         print("model: the %d-record case is not run on the model (multi-run merging is C07's subject)" % n)
+        for f in fails:
+            print("oracle fails: %s" % f["what"])
+        return fails
+    if failure.get("case") == "writer-route":
+        import tempfile
+        hroute, factory, method = failure["header_route"], failure["factory"], failure.get("method", "+=")
+        specs = [tuple(sp) for sp in failure["records"]]
+        order, contigs, typed, sort = failure["order"], list(failure.get("contigs") or []), failure["typed"], failure["sorting"]
+        print("%s writer made by %s, header made through route %r from (order=%s, contigs=%s); %s records handed over with %s:" % (
+            "sorting" if sort else "direct", {"ctor": "MafWriter(...)", "from_fd": "MafWriter.from_fd", "path": "MafWriter.from_path(plain path)",
+                                              "path-gz": "MafWriter.from_path(path ending in .gz)"}.get(factory, factory),
+            hroute, order, contigs or "none", "gdc-1.0.0" if typed else "scheme-less", method))
+        for sp in specs:
+            print("    write tumor=%r normal=%r chr=%r start=%r end=%r" % (sp[0], sp[1], sp[2], sp[3], sp[3] + sp[4]))
+        print("    close")
+        with tempfile.TemporaryDirectory() as tmp:
+            res, where, fails, body, req = eval_write_route(hroute, factory, method, specs, order, contigs, typed, sort, tmp, 1, failure.get("positional_args", True))
+        text = None if res is None else res.get("text")
+
+        def parts(t):
+            hdr, col, bd = body_lines(t)
+            names = (col or "").split("\t")
+            want = ["Tumor_Sample_Barcode", "Matched_Norm_Sample_Barcode", "Chromosome", "Start_Position", "End_Position"]
+            if all(n in names for n in want):
+                bd = [[b.split("\t")[names.index(n)] for n in want] for b in bd if len(b.split("\t")) == len(names)]
+            return hdr, col, bd
+        if text is not None:
+            hdr, col, bd = parts(text)
+            print("implementation: file has header %s, %s, body (tumor, normal, chr, start, end): %s" % (hdr, "a column line" if col is not None else "no column line", bd))
+        elif res is not None:
+            print("implementation: %s" % (res.get("init_exc") or res.get("excs")))
+        if req is not None and text is not None:
+            try:
+                m = ctx.driver.run([req])[0]
+                if has_unmodelled(m):
+                    print("model: outside the model's domain")
+                else:
+                    mt = m["steps"][-1]["out"] if m.get("steps") else ""
+                    print("model: body %s%s" % (parts(mt)[2], "" if mt == text else "   (the file differs from the implementation's)"))
+            except Exception as e:  # noqa
+                print("model: not available (%s)" % str(e)[:200])
         for f in fails:
             print("oracle fails: %s" % f["what"])
         return fails
